@@ -513,4 +513,7 @@ pub fn run(ctx: &Ctx) {
     };
     ctx.search("conformant-wide", ctx.n(80_000, 8_000_000), &move || gen::conformant_case(c, BuildOpts::WIDE), &oracle);
     ctx.search("hostile", ctx.n(80_000, 8_000_000), &gen::hostile_case, &oracle);
+    let mut b = gen::boundary_count_cases(crate::wire::Proto::V9);
+    b.extend(gen::boundary_count_cases(crate::wire::Proto::Ipfix));
+    ctx.enumerate("boundary-counts", b, false, &oracle);
 }
